@@ -916,7 +916,7 @@ Theorem law_pg_sound : forall sp xs jp q g,
   law_pg sp xs jp q g = true ->
   g_minmember g = s_min sp /\ g_prio g = jp /\ q = true /\
   (forall t, In t (s_tasks sp) -> tm_get (t_name t) (g_taskmin g) = Some (min_task_member t)) /\
-  law_minres sp xs (g_res g) = true.
+  law_minres_stable sp xs (g_res g) = true.
 Proof.
   intros sp xs jp q g H. unfold law_pg in H.
   repeat (apply andb_true_iff in H; let H' := fresh "H" in destruct H as [H H']).
@@ -1023,3 +1023,74 @@ Proof.
   unfold well_formed in Hw. apply andb_true_iff in Hw. destruct Hw as [Hw _].
   apply andb_true_iff in Hw. destruct Hw as [_ Hw]. apply Z.leb_le in Hw. exact Hw.
 Qed.
+
+(* ---------- ties are visited in spec order (round 6: TasksPriority.Less breaking ties by name) ---------- *)
+Definition same_prio (p : Z) (t : ptask) : bool := pt_prio t =? p.
+
+Lemma desc_prio_head : forall y r, desc_prio (y :: r) = true -> Forall (fun t => pt_prio t <= pt_prio y) r.
+Proof.
+  intros y r. revert y. induction r as [|z r IH]; intros y H; [constructor|].
+  rewrite desc_prio_cons2 in H. apply andb_true_iff in H. destruct H as [H1 H2]. apply Z.leb_le in H1.
+  constructor; [exact H1|]. eapply Forall_impl; [|apply IH; exact H2]. cbn. intros; lia.
+Qed.
+
+Lemma desc_prio_tail : forall y r, desc_prio (y :: r) = true -> desc_prio r = true.
+Proof. intros y [|z r] H; [reflexivity|]. rewrite desc_prio_cons2 in H. apply andb_true_iff in H. tauto. Qed.
+
+(* insertion puts a task AFTER every task of the same priority already there *)
+Lemma ins_prio_stable : forall p x l, desc_prio l = true ->
+  filter (same_prio p) (ins_prio x l) = filter (same_prio p) l ++ (if same_prio p x then [x] else []).
+Proof.
+  intros p x. induction l as [|y r IH]; intros Hd; [cbn; destruct (same_prio p x); reflexivity|].
+  cbn [ins_prio]. destruct (pt_prio y <? pt_prio x) eqn:E.
+  - apply Z.ltb_lt in E.
+    assert (C : filter (same_prio p) (x :: y :: r) =
+                if same_prio p x then x :: filter (same_prio p) (y :: r) else filter (same_prio p) (y :: r)) by reflexivity.
+    rewrite C. clear C. destruct (same_prio p x) eqn:Ex; [|rewrite app_nil_r; reflexivity].
+    unfold same_prio in Ex. apply Z.eqb_eq in Ex.
+    assert (N : filter (same_prio p) (y :: r) = []).
+    { pose proof (desc_prio_head _ _ Hd) as Hh.
+      assert (A : Forall (fun t => pt_prio t <= pt_prio y) (y :: r)) by (constructor; [lia|exact Hh]).
+      clear - A E Ex. induction A as [|z l Hz _ IHl]; [reflexivity|].
+      cbn [filter]. unfold same_prio at 1. replace (pt_prio z =? p) with false by (symmetry; apply Z.eqb_neq; lia).
+      exact IHl. }
+    rewrite N. reflexivity.
+  - cbn [filter]. rewrite (IH (desc_prio_tail _ _ Hd)). destruct (same_prio p y); reflexivity.
+Qed.
+
+Theorem sort_prio_stable : forall l p, filter (same_prio p) (sort_prio l) = filter (same_prio p) l.
+Proof.
+  intros l p. unfold sort_prio.
+  assert (G : forall l acc, desc_prio acc = true ->
+            filter (same_prio p) (fold_left (fun acc x => ins_prio x acc) l acc) =
+            filter (same_prio p) acc ++ filter (same_prio p) l).
+  { induction l0 as [|x l0 IH]; intros acc Hacc; cbn [fold_left filter]; [rewrite app_nil_r; reflexivity|].
+    rewrite (IH _ (ins_prio_desc x acc Hacc)), (ins_prio_stable p x acc Hacc), <- app_assoc.
+    destruct (same_prio p x); reflexivity. }
+  rewrite (G l [] eq_refl). reflexivity.
+Qed.
+
+(* law 212 MEANS: fewer than 12 tasks => the value is the amount over THE descending-priority order that
+   keeps tasks of equal priority in spec order *)
+Theorem law_minres_stable_sound : forall sp xs got,
+  law_minres_stable sp xs got = true -> (length (s_tasks sp) < 12)%nat ->
+  let l := ptasks sp xs in let o := sort_prio l in
+  got = calc_min_resources_sorted (s_min sp) o (total_min l) /\
+  desc_prio o = true /\ Permutation o l /\ forall p, filter (same_prio p) o = filter (same_prio p) l.
+Proof.
+  intros sp xs got H Hlen l o. unfold law_minres_stable in H. apply andb_true_iff in H. destruct H as [_ H].
+  apply Nat.ltb_lt in Hlen. rewrite Hlen in H. apply res_eqb_eq in H.
+  split; [exact H|]. destruct (sort_prio_sorted l) as [A B]. split; [exact A|]. split; [exact B|].
+  intros p. apply sort_prio_stable.
+Qed.
+
+(* non-vacuity / the seeded mutant: tasks [worker(name 2); master(name 1)] of equal priority, different
+   requests, minAvailable 1 below the sum of the minimums: spec order takes worker's request; an order
+   by name would take master's, which the any-order law accepts and law 212 refuses *)
+Example minres_stable_example :
+  let sp := mkSpec [mkTask 2 2 None [] None; mkTask 1 2 None [] None] 1 None 3 [] in
+  let xs := [mkExtra 100 64 1; mkExtra 250 0 1] in
+  calc_min_resources sp xs = mkR 1 100 64 /\
+  law_minres_stable sp xs (mkR 1 100 64) = true /\
+  law_minres sp xs (mkR 1 250 0) = true /\ law_minres_stable sp xs (mkR 1 250 0) = false.
+Proof. vm_compute. auto. Qed.
